@@ -30,7 +30,7 @@ SendWrapSmall == { MkS(4, W, NB, 1, FALSE, FALSE, 0) : W \in 1..3, NB \in {9, 10
 RecvWrapSmall == { MkR(4, W, 1, TRUE, 0) : W \in 1..3 } \cup { MkR(8, W, 1, TRUE, 0) : W \in {6, 7} }
 
 \* wrap-around at the real modulus: start after a conformant prefix of base0 blocks
-SendWrapReal == { MkS(RealM, W, 65536 + 3, 1, FALSE, FALSE, b0) : W \in 1..3, b0 \in {65533, 65534} }
+SendWrapReal == { MkS(RealM, W, 65536 + 3, 1, chk, FALSE, b0) : W \in 1..3, b0 \in {65533, 65534}, chk \in BOOLEAN }
 RecvWrapReal == { MkR(RealM, W, 1, TRUE, b0) : W \in 1..3, b0 \in {65533, 65534} }
 
 \* boundary window sizes 65534 / 65535: short files (window never full) ...
